@@ -642,7 +642,7 @@ def generate(seed, per_seed, thorough, signed=None):
             push(ep, [a], "html nesting depth %d" % d)
     # stacked mutations (two or three at once) on random seeds
     allseeds = [(ep, s) for ep, lst in S.items() for s in lst]
-    for _ in range(3000 if thorough else 600):
+    for _ in range(15000 if thorough else 600):
         ep, (args, which, kind) = rng.choice(allseeds)
         cur = args[which]
         if isinstance(cur, dict):
@@ -655,5 +655,5 @@ def generate(seed, per_seed, thorough, signed=None):
         a = list(args)
         a[which] = cur
         push(ep, a, "stacked mutations")
-    edits = [{"i": 0, "ep": "ruleset_edit", "a": op, "why": "ruleset edit"} for op in ruleset_edits(rng, 6000 if thorough else 1500)]
+    edits = [{"i": 0, "ep": "ruleset_edit", "a": op, "why": "ruleset edit"} for op in ruleset_edits(rng, 20000 if thorough else 1500)]
     return inputs, probes, edits
